@@ -1,8 +1,9 @@
-\* intended code shape, thorough tier: all sessions of <= 4 productions; exports them
+\* intended code shape, thorough tier: all sessions of <= 3 productions per text; exports them
 SPECIFICATION Spec
 CONSTANTS
-  MaxProd = 4
+  MaxProd = 3
   MaxDepth = 6
+  OnlyKinds = {"qualDecl", "class", "instance", "include", "namespace", "garbage"}
   IncludeGuard = TRUE
   NsNoneCheck = TRUE
   HexBounds = TRUE
@@ -15,5 +16,6 @@ INVARIANT TypeOK
 INVARIANT ImplRefinesReq
 INVARIANT PositionFileOK
 INVARIANT Reusable
+PROPERTY Termination
 POSTCONDITION Export
 CHECK_DEADLOCK FALSE
